@@ -197,12 +197,17 @@ func c18Gen(t *rapid.T) C18Case {
 	// A generated nesting of integer-valued aggregations whose grouping clauses name the same
 	// few labels in any order of by / without: the label sets of the answer must not depend on
 	// which member of a group the runtime happens to visit first.
-	if rapid.IntRange(0, 2).Draw(t, "generated-nesting") == 0 {
+	if rapid.IntRange(0, 1).Draw(t, "generated-nesting") == 0 {
 		pool := []string{"container", "tier", "env", "msg"}
+		// Half of the time every level names one common label.
+		common := ""
+		if rapid.Bool().Draw(t, "gn-common") {
+			common = rapid.SampledFrom(pool).Draw(t, "gn-common-label")
+		}
 		grouping := func(label string) string {
 			var ls []string
 			for _, l := range pool {
-				if rapid.IntRange(0, 2).Draw(t, label+"-"+l) == 0 {
+				if l == common || rapid.IntRange(0, 2).Draw(t, label+"-"+l) == 0 {
 					ls = append(ls, l)
 				}
 			}
@@ -216,6 +221,9 @@ func c18Gen(t *rapid.T) C18Case {
 		q := rapid.SampledFrom([]string{`count_over_time({}[5s])`, `bytes_over_time({}[3s])`, `count_over_time({} | drop msg [5s])`,
 			`max_over_time({} | pattern "<method> <path> <code>" | unwrap code [5s]) ` + grouping("g0")}).Draw(t, "gn-range")
 		depth := rapid.IntRange(1, 3).Draw(t, "gn-depth")
+		if common != "" {
+			depth = rapid.IntRange(2, 3).Draw(t, "gn-depth-common")
+		}
 		for i := 0; i < depth; i++ {
 			op := rapid.SampledFrom([]string{"sum", "max", "min", "count"}).Draw(t, "gn-op")
 			q = op + " " + grouping("g"+strconv.Itoa(i+1)) + " (" + q + ")"
